@@ -7,6 +7,10 @@ require (
 	github.com/moov-io/imagecashletter v0.0.0
 )
 
-require golang.org/x/text v0.23.0 // indirect
+require (
+	github.com/antihax/optional v1.0.0 // indirect
+	golang.org/x/oauth2 v0.29.0 // indirect
+	golang.org/x/text v0.23.0 // indirect
+)
 
 replace github.com/moov-io/imagecashletter => /repo
